@@ -289,7 +289,10 @@ def read_scsv(file):
                 + " Check logging output for details."
             )
         reader = csv.reader(
-            csv_lines, delimiter=schema["delimiter"], skipinitialspace=True
+            csv_lines,
+            delimiter=schema["delimiter"],
+            # With a space delimiter this would swallow empty (e.g. missing) cells.
+            skipinitialspace=schema["delimiter"] != " ",
         )
 
         schema_colnames = [d["name"] for d in schema["fields"]]
